@@ -480,6 +480,72 @@ pub fn directed() -> Vec<Request> {
             }
         }
     }
+    // where-clause x common bound x per-trait bound x field-level bound
+    {
+        let wheres = ["", "where T: Copy", "where T: Copy,", "where", "where 'a: 'a, T: 'a", "where for<'x> &'x T: Copy, U: Clone,"];
+        let bounds = ["", "bound()", "bound(..)", "bound(T)", "bound(T: Clone)", "bound(T: Clone, U)", "bound(T, ..)", "bound(T,)", "bound(T: Clone,)", "bound('a: 'a)", "bound(.., ..)", "bound(U: ?Sized)"];
+        for w in wheres {
+            for common in bounds {
+                for per in bounds {
+                    let per_s = if per.is_empty() { String::new() } else { format!("({per})") };
+                    let common_s = if common.is_empty() { String::new() } else { format!(", {common}") };
+                    out.push(Request {
+                        mode: Mode::Attr,
+                        attr: format!("Clone{per_s}, Default, Add{per_s}, PartialEq{common_s}"),
+                        item: format!("struct X<'a, T, U>(&'a T, #[derive_ex(Clone{per_s}, Default({common}))] U, #[partial_eq({common})] u8) {w};"),
+                    });
+                }
+            }
+            for common in bounds {
+                out.push(Request {
+                    mode: Mode::Derive,
+                    attr: String::new(),
+                    item: format!("#[derive_ex(Clone, Debug, Hash, {common})] #[debug({common})] enum X<'a, T, U> {w} {{ #[hash({common})] A(&'a T), B {{ #[debug({common})] u: U }} }}"),
+                });
+            }
+        }
+    }
+    // every helper-attribute FORM on the type, a variant and a field
+    {
+        let forms = ["#[N]", "#[N()]", "#[N = 1]", "#[N[ignore]]", "#[N{ignore}]", "#[::N]", "#[derive_ex::N(ignore)]", "#[N::x]", "#[N(ignore)] #[N(ignore)]", "/// doc\n #[N(bound(T))] /// more", "#[N(,)]", "#[N(bound(T),)]", "#[cfg_attr(x, N(ignore))]"];
+        for name in ["ord", "partial_ord", "eq", "partial_eq", "hash", "debug", "default", "derive_ex"] {
+            for form in forms {
+                let a = form.replace('N', name);
+                for item in [
+                    format!("{a} struct X<T>(T);"),
+                    format!("struct X<T>({a} T, u8);"),
+                    format!("enum X<T> {{ {a} A(T), #[default] B }}"),
+                    format!("enum X<T> {{ A({a} T), #[default] B }}"),
+                ] {
+                    out.push(Request { mode: Mode::Attr, attr: "Ord, PartialOrd, Eq, PartialEq, Hash, Debug, Default, Clone".into(), item: item.clone() });
+                    out.push(Request { mode: Mode::Attr, attr: "Clone".into(), item: item.clone() });
+                    out.push(Request { mode: Mode::Derive, attr: String::new(), item: format!("#[derive_ex(Ord, PartialOrd, Eq, PartialEq, Hash, Debug, Default, Clone)] {item}") });
+                }
+            }
+        }
+        // all helpers at once, only one trait (or none) derived
+        let all = "#[ord(bound(T))] #[partial_ord(bound(T))] #[eq(bound(T))] #[partial_eq(bound(T))] #[hash(bound(T))] #[debug(bound(T))] #[default(_, bound(T))]";
+        for list in ["Clone", "Debug", "Hash", "Default", "", "Ord, Debug"] {
+            out.push(Request { mode: Mode::Attr, attr: list.into(), item: format!("{all} struct X<T>({all} T);") });
+            out.push(Request { mode: Mode::Attr, attr: list.into(), item: format!("{all} enum X<T> {{ {all} A({all} T), B }}") });
+        }
+    }
+    // qualifiers and item forms around ordinary input
+    for item in [
+        "pub(in crate::a) struct X(pub(self) u8, pub(in super) String);",
+        "#[repr(C)] #[cfg_attr(x, derive(Debug))] /// doc\n pub(crate) struct X { /// field doc\n #[cfg(x)] pub a: u8 }",
+        "pub enum X { #[doc = \"d\"] #[cfg(x)] A(#[cfg(x)] pub u8), B { #[allow(unused)] pub b: u8 } }",
+        "unsafe impl Add for X { type Output = X; unsafe fn add(self, rhs: X) -> X { self } }",
+        "default impl Add for X { type Output = X; default fn add(self, rhs: X) -> X { self } }",
+        "impl Add for X { #[inline] type Output = X; const C: u8 = 0; #[inline(always)] extern \"C\" fn add(self, rhs: X) -> X { self } m!(); }",
+        "impl Add for X { type Output = X; async fn add(self, rhs: X) -> X { self } const fn f() {} pub fn g() {} }",
+        "#[cfg(x)] #[allow(unused)] impl<T> Add<T> for X<T> where T: Copy { /// doc\n type Output = X<T>; fn add(self, rhs: T) -> X<T> { self } }",
+        "impl AddAssign for X { default fn add_assign(&mut self, rhs: X) {} type T = u8; const K: u8 = 1; }",
+    ] {
+        for attr in ["Add, AddAssign", "Clone, Default, Debug, Ord, PartialOrd, Eq, PartialEq, Hash", "Add", "Sub", ""] {
+            out.push(Request { mode: Mode::Attr, attr: attr.into(), item: item.into() });
+        }
+    }
     // types handed over by a `macro_rules!` expansion (`$t:ty`): inside a None-delimited group
     for ty in ["dyn A + B", "dyn Fn() + Send", "impl A + B", "fn(T)", "T", "Vec<T>", "&'a T", "(T, u8)", "[T; N]", "dyn A", "A + B"] {
         for (attr, item) in [
